@@ -140,6 +140,7 @@ func checkC14(r *report.Report, tier string, seed int64) error {
 	opt.Hooks = 0.5
 	opt.Explicit = 0.8
 	opt.Embedding = 0.25
+	opt.CrossConv = 0.3
 	r.Rule = "generated setup packages biased to malformed input: byte strings in notation position (valid and invalid UTF-8, NBSP, missing arguments, unknown operations), :conv/:preprocess/:postprocess naming functions of every arity and result shape (missing, unexported, variables, non-functions), error-/interface-/func-typed fields, zero-parameter/zero-result/non-struct/pointer-to-pointer methods, files without converter interface; binary run under a time limit; non-trivial = the run ends in an error or panic, or has at least one explicit notation; distinct by file contents"
 	// every fourth package is well-formed and drawn from the classes whose handling reads the
 	// package of a named type (conversions, slices, interface- and error-typed members)
@@ -166,6 +167,10 @@ func c01Oracle(cr *caseRun) [][2]string {
 	}
 	if ok, out := goBuild(cr.Dir, "pk"); !ok {
 		class, first := compileErrorClass(out)
+		if class == "undefined-identifier" && strings.HasSuffix(strings.TrimSpace(first), "undefined: Item") {
+			// deep.Item: a type of a package the setup file does not import itself, spelled without qualifier
+			class = "undefined-identifier:type-of-a-package-the-setup-file-does-not-import"
+		}
 		vs = append(vs, [2]string{"does-not-compile:" + class, first + "\n" + trunc(out, 800)})
 	}
 	return vs
@@ -177,6 +182,8 @@ func checkC01(r *report.Report, tier string, seed int64) error {
 		n = 8000
 	}
 	opt := gen.DefaultOptions()
+	opt.CrossConv = 0.3
+	opt.Embedding = 0.1
 	r.Rule = "generated setup packages over the type alphabet of harness/gen (basic, named, pointer, slice, array, map, chan, func, interface, error, struct: local, imported with unexported members, anonymous, embedded, nested) x relation classes x toggles x explicit notations x styles/receiver/reverse/arguments x hooks; on every exit-0 run the package is type-checked with `go vet` under the ordinary build (setup file excluded by its tag, output included) and the output checked with gofmt -l; non-trivial = exit 0 with at least one assignment emitted; distinct by file contents"
 	return pipelineCheck(r, "C01", seed, n, opt, nil,
 		func(cr *caseRun) bool { return cr.Impl.Status == 0 && strings.Contains(cr.Impl.Output, " = ") }, c01Oracle)
